@@ -2,8 +2,18 @@
 """print a markdown table of the seeded changes (seeded/*/meta.json, seeded/round2/*/meta.json) and which check caught them"""
 import json, glob, os, re
 HERE = os.path.dirname(os.path.dirname(os.path.abspath(__file__)))
+def needs_from_readme(d):
+    import glob as g
+    for f in g.glob(d + "/README*"):
+        t = open(f, errors="replace").read()
+        m = re.search(r"(?is)(trigger|needs? (in order )?to manifest)[^\n]*\n+(.{20,400}?)(\n\n|\n#)", t)
+        if m:
+            return " ".join(m.group(3).split())
+    return ""
+
+
 rows = []
-for mp in sorted(glob.glob(HERE + "/seeded/C*/meta.json")) + sorted(glob.glob(HERE + "/seeded/round2/C*/meta.json")):
+for mp in sorted(glob.glob(HERE + "/seeded/C*/meta.json")) + sorted(glob.glob(HERE + "/seeded/round[2-9]/C*/meta.json")):
     m = json.load(open(mp))
     d = os.path.dirname(mp)
     patch = open(d + "/patch.diff").read() if os.path.exists(d + "/patch.diff") else ""
@@ -15,7 +25,7 @@ for mp in sorted(glob.glob(HERE + "/seeded/C*/meta.json")) + sorted(glob.glob(HE
     first_caught = any(r.get("exit") for r in first.values())
     last_caught = [c for c, r in last.items() if r.get("exit")]
     concrete = any(r.get("exit") and r.get("violations", 0) > r.get("no_input", 0) for r in last.values())
-    rows.append((os.path.relpath(d, HERE + "/seeded"), own, ", ".join(files), m.get("needs", "")[:150].replace("|", "/"),
+    rows.append((os.path.relpath(d, HERE + "/seeded"), own, ", ".join(files), (m.get("needs") or needs_from_readme(d))[:150].replace("|", "/"),
                  "yes" if first_caught else "no", ", ".join(sorted(set(m.get("caught_by", [])))) or "-",
                  "yes" if concrete else ("proof/cert only" if last_caught else "-")))
 print("| change | property | files | needs | caught at first run | caught by (now) | concrete failing input |")
